@@ -31,7 +31,7 @@ F_ARRAY = ('_util:ArrayIndexer.__init__', '_util:ArrayIndexer.__call__', 'base_m
 F_CALLABLE = ('base_metric:BaseMetricLearner._check_preprocessor',)
 F_PREPARE = ('base_metric:BaseMetricLearner._prepare_inputs',)
 
-PREPS = ('ndarray', 'ndarray-int', 'ndarray-F', 'list', 'callable')
+PREPS = ('ndarray', 'ndarray-int', 'ndarray-F', 'list', 'callable', 'ndarray-nanrows')
 DTYPES = ('int8', 'int16', 'int32', 'int64', 'uint8', 'uint16', 'uint32', 'uint64', 'intp', 'pylist')
 PATTERNS = ('permutation', 'repeats', 'reversed', 'sorted', 'nearly-constant')
 LKINDS = ('random', 'lowrank-2', 'rank-deficient', 'identity', 'lowrank-1')
@@ -51,6 +51,11 @@ def make_prep(kind, pool):
     return np.asfortranarray(pool), pool, None
   if kind == 'list':
     return pool.tolist(), pool, None
+  if kind == 'ndarray-nanrows':
+    # a table with incomplete records that NO indicator refers to (they sit after the last referenced row): only the selected rows matter
+    junk = np.full((3, pool.shape[1]), np.nan)
+    junk[1, 0] = np.inf
+    return np.vstack([pool, junk]), pool, None
   log = []
   Xc = pool.copy()
 
@@ -449,7 +454,7 @@ def cases(tier, seed):
       tuple((p, dt) for p in ('repeats', 'permutation', 'sorted') for dt in ('int8', 'int32', 'int64', 'uint8', 'uint64', 'pylist'))
   for cls in PUBLIC:
     for vi, (pattern, dt) in enumerate(variants):
-      for prepkind in ('ndarray', 'list', 'callable'):
+      for prepkind in ('ndarray', 'list', 'callable') + (('ndarray-nanrows',) if vi == 0 else ()):
         s = seed * 100 + (vi if quick else vi % 6)
         desc = '%s.fit prep=%s indicators=%s/%s seed=%d' % (cls, prepkind, dt, pattern, s)
         yield (desc, _tags(KIND[cls][1], prepkind, F_PREPARE),
